@@ -119,6 +119,9 @@ def _truth_tested(fnode):
             leaves(n, False)
         elif isinstance(n, ast.UnaryOp) and isinstance(n.op, ast.Not):
             leaves(n.operand, True)
+        elif isinstance(n, ast.Call) and isinstance(n.func, ast.Name) and \
+                n.func.id == "bool" and len(n.args) == 1:
+            leaves(n.args[0], True)
     seen, uniq = set(), []
     for e in out:
         if id(e) not in seen:
@@ -748,6 +751,20 @@ def probe_raises_for_failures(repo, col, short, qualname,
                     seen.add(h.key)
                     closure.append(h)
                     nxt.append(h)
+            # methods handed on as values: self._retry(self._probe, url)
+            if f.cls is not None:
+                for x in ast.walk(f.node):
+                    if isinstance(x, ast.Attribute) and \
+                            isinstance(x.value, ast.Name) and \
+                            x.value.id == "self":
+                        for cc in repo.mro(f.cls):
+                            h = cc.methods.get(x.attr)
+                            if h is not None:
+                                if h.key not in seen:
+                                    seen.add(h.key)
+                                    closure.append(h)
+                                    nxt.append(h)
+                                break
         frontier = nxt
     rfs = [(f, c) for f in closure for c in calls_in(f.node)
            if isinstance(c.func, ast.Attribute) and
